@@ -115,17 +115,20 @@ Overlay(c, L) == [n \in OptNames |-> IF n \in DOMAIN L THEN L[n] ELSE c[n]]
 (* Property level                                                           *)
 (***************************************************************************)
 (* first present of command line, environment, file, default                *)
-Resolve(lay, n) ==
-    IF n \in DOMAIN CliLayer(lay) THEN CliLayer(lay)[n]
-    ELSE IF n \in DOMAIN EnvLayer(lay) THEN EnvLayer(lay)[n]
-    ELSE IF n \in DOMAIN FileLayer(lay) THEN FileLayer(lay)[n]
+Layers(lay) == [cli |-> CliLayer(lay), env |-> EnvLayer(lay), file |-> FileLayer(lay)]
+ResolveIn(L, n) ==
+    IF n \in DOMAIN L.cli THEN L.cli[n]
+    ELSE IF n \in DOMAIN L.env THEN L.env[n]
+    ELSE IF n \in DOMAIN L.file THEN L.file[n]
     ELSE Default(n)
-Source(lay, n) ==
-    IF n \in DOMAIN CliLayer(lay) THEN "cli"
-    ELSE IF n \in DOMAIN EnvLayer(lay) THEN "env"
-    ELSE IF n \in DOMAIN FileLayer(lay) THEN "file" ELSE "default"
+SourceIn(L, n) ==
+    IF n \in DOMAIN L.cli THEN "cli"
+    ELSE IF n \in DOMAIN L.env THEN "env"
+    ELSE IF n \in DOMAIN L.file THEN "file" ELSE "default"
+Resolve(lay, n) == ResolveIn(Layers(lay), n)
+Source(lay, n)  == SourceIn(Layers(lay), n)
 PrecedenceAt(lay, c, n) == c[n] = Resolve(lay, n)
-Precedence(lay, c)      == \A n \in OptNames : PrecedenceAt(lay, c, n)
+Precedence(lay, c)      == LET L == Layers(lay) IN \A n \in OptNames : c[n] = ResolveIn(L, n)
 
 NetActions == <<"status", "test_connection", "checkin", "unregister", "check_results", "diagnosis", "to_json">>
 Has(c, n)  == n \in DOMAIN c /\ T(c[n])
